@@ -572,6 +572,8 @@ class NetRun:
                     t0 = time.time()
                     try:
                         self.task = await asyncio.wait_for(self.srv.serve_forever(), STEP_WAIT)
+                        if case.get("early_stop") and isinstance(self.task, asyncio.Task):
+                            self.task.cancel()          # at once: no loop iteration since `serve_forever()` returned
                         break
                     except asyncio.TimeoutError:
                         self.fail("monitor", monitor="serve-forever-did-not-return", detail="")
@@ -581,7 +583,7 @@ class NetRun:
                             continue            # the probed port was taken in the meantime
                         raise W.HarnessTimeout(f"could not bind a server socket: {e!r}")
                 self.stats["serve_forever_us"] = int((time.time() - t0) * 1e6)
-                if not isinstance(self.task, asyncio.Task) or self.task.done():
+                if not isinstance(self.task, asyncio.Task) or (self.task.done() and not case.get("early_stop")):
                     self.fail("monitor", monitor="serve-forever-no-live-task", detail=repr(self.task))
                     return
                 addr = ("tcp", port) if case["transport"] == "tcp" else ("unix", self.path)
@@ -591,7 +593,8 @@ class NetRun:
                     pool.start(2)
                 await W.spin(10)
                 m = parse_model(mlines[mi])
-                await self.settle(m, -1)
+                if not case.get("early_stop"):
+                    await self.settle(m, -1)    # (stopped at once, the serving state was never there to be seen)
                 mi += 1
                 base = W.observe(pool)
                 released = False
@@ -715,7 +718,8 @@ class NetRun:
                                     self.fail("monitor", monitor="disconnect-disturbed-other-session", step=step, detail=r)
                                 break
                     elif op[0] == "stop":
-                        self.task.cancel()
+                        if not (case.get("early_stop") and step == 0):      # (that one was issued right after the start)
+                            self.task.cancel()
                     elif op[0] == "restart":
                         try:
                             self.task = await asyncio.wait_for(self.srv.serve_forever(), STEP_WAIT)
